@@ -3,8 +3,8 @@
 # removed afterwards), so /repo is never touched and several can run at once.
 ID=$1; shift
 export GOFLAGS=-mod=mod GOPROXY=off GOSUMDB=off GOTOOLCHAIN=local
-W=/tmp/ts-$ID; rm -rf $W $W-out; mkdir -p $W-out
-rsync -a --exclude .git /repo/ $W/
+W=/tmp/ts-$ID; rm -rf $W $W-out; mkdir -p $W $W-out
+git -C /repo archive HEAD | tar -x -C $W   # the committed tree: /repo's working tree may be in use
 P=/verif/seeded/$ID/patch.diff; [ -f /verif/seeded/$ID/patch.rebased.diff ] && P=/verif/seeded/$ID/patch.rebased.diff
 (cd $W && patch -p1 -s < $P >/dev/null 2>&1) || { echo "== $ID: patch does not apply"; rm -rf $W $W-out; exit 2; }
 for PR in "$@"; do
